@@ -166,7 +166,10 @@ def update_case(name, backward=True):
 
     # several origins: the edge out of the start node is judged on its own (after the backward pass a slower primary origin branch
     # carries its latest start time there, known finding; every other edge is not affected by it)
-    primary_equation = primary_equation_on(lambda p: not (start_split and backward and p == 1))
+    nested = sum(1 for e in pre if e["idx_next_alt"] != 0) > 1
+    # nested alternates: with independent durations the backward pass can reach the start through a branch that is not the shortest
+    # one (see the trip-time note below), which shows on the edge out of the start node only; not established as reachable, not claimed
+    primary_equation = primary_equation_on(lambda p: not ((start_split or nested) and backward and p == 1))
 
     def not_later(kind):
         def fn(c):
